@@ -35,7 +35,7 @@ ASSUMPTIONS = [
     "generated databook bases carry one extra unit-less databook parameter (like 'contacts' in the library SIR framework)",
 ]
 BUDGET = {"quick": 1500, "thorough": 40000}
-TIME_CAP = {"quick": 70, "thorough": 1300}
+TIME_CAP = {"quick": 60, "thorough": 1300}
 
 LIB_DIR = None  # resolved lazily from the atomica package under test
 QUICK_LIBS = ["tb_simple", "udt", "hypertension", "hiv", "sir", "usdt", "dt", "sir_vaccine", "combined", "udt_dyn", "hypertension_dyn", "tb_simple_dyn"]
@@ -62,9 +62,10 @@ SMALL_SPEC = {
         {"name": "k5", "fmt": "proportion", "ts": None, "fn": None, "db": True, "min": None, "max": None, "tgt": False, "timed": False, "deriv": False},
         {"name": "k6", "fmt": "duration", "ts": None, "fn": None, "db": True, "min": None, "max": None, "tgt": False, "timed": True, "deriv": False},
         {"name": "k7", "fmt": "rate", "ts": None, "fn": None, "db": True, "min": None, "max": None, "tgt": False, "timed": False, "deriv": False},
+        {"name": "k8", "fmt": None, "ts": None, "fn": "SRC_POP_AVG(k0, w0)", "db": False, "min": None, "max": None, "tgt": False, "timed": False, "deriv": False},
     ],
     "links": [["c0", "c1", ["k0"]], ["src", "c0", ["k1"]], ["c1", "snk", ["k2"]], ["c0", "j0", ["k3"]], ["j0", "c1", ["k4"]], ["j0", "c0", ["k5"]], ["c1", "t0a", ["k7"]], ["t0a", "c0", ["k6"]]],
-    "inter": [],
+    "inter": [{"name": "w0"}],
     "cascades": [{"name": "main", "stages": [["S x0", ["x0"]], ["S x1", ["x1"]]]}],
     "settings": {"start": 2000.0, "end": 2003.0, "dt": 0.25},
     "pops": ["pa", "pb"],
@@ -85,7 +86,7 @@ SMALL_SPEC = {
         "yf": {},
         "myf": {},
         "tr": [{"name": "tr0", "e": {"pa>pb": {"a": 0.1, "u": "rate"}}}, {"name": "tr1", "e": {"pb>pa": {"a": 2.0, "u": "number"}}}],
-        "iw": {},
+        "iw": {"w0": {"pa>pb": {"a": 1.0}, "pb>pb": {"a": 0.5}}},
     },
     "labels": ["fixed:small-spec"],
 }
@@ -686,13 +687,17 @@ def cases(draw, tier):
         if target != "framework":
             names = [n for n in names if os.path.exists(_lib_path(n, target[:4] + "book"))]
         name = draw(st.sampled_from(names))
-        entry = draw(st.sampled_from([e.id for e in cat.entries_for(target)]))
-        return {"mode": "mut", "base": {"lib": name}, "entry": entry, "site": site}
+        ids = [e.id for e in cat.entries_for(target)]
+        k = draw(st.integers(0, 10**6))
+        return {"mode": "mut", "base": {"lib": name}, "entry": ids[(k * 7919 + site) % len(ids)], "site": (site + k) % SITE_RANGE}
     target = {"fw": "framework", "db": "databook", "pb": "progbook"}[kind]
     spec = draw(gen_model.model_specs(GEN_PROFILE))
     f = _features(spec)
     ids = [e.id for e in cat.entries_for(target) if all(f.get(n, False) for n in NEEDS.get(e.id, [])) and not e.id.endswith(".identity")]
-    return {"mode": "mut", "base": {"gen": spec}, "entry": draw(st.sampled_from(ids)), "site": site}
+    # Hypothesis favours the first elements of a list; rotating the choice by a digest of the drawn spec spreads the cases evenly over the catalogue
+    rot = int(case_hash(spec), 16)
+    k = draw(st.integers(0, len(ids) - 1))
+    return {"mode": "mut", "base": {"gen": spec}, "entry": ids[(k + rot) % len(ids)], "site": (site + rot // 1000) % SITE_RANGE}
 
 
 def strategy(tier):
@@ -721,9 +726,9 @@ def _fixed_specs(n):
 def static_cases(tier):
     _at()
     # every library file must load unchanged (identity entries): deterministic in every tier
-    for name in ALL_LIB_FRAMEWORKS:
-        yield {"mode": "mut", "base": {"lib": name}, "entry": "fw.identity", "site": 0}
     libs = QUICK_LIBS if tier == "quick" else ALL_LIB_FRAMEWORKS
+    for name in libs:
+        yield {"mode": "mut", "base": {"lib": name}, "entry": "fw.identity", "site": 0}
     for name in libs:
         if os.path.exists(_lib_path(name, "databook")):
             yield {"mode": "mut", "base": {"lib": name}, "entry": "db.identity", "site": 0}
@@ -734,7 +739,8 @@ def static_cases(tier):
         # every catalogue entry once on the small fixed model, so that each rule is exercised in every run whatever the seed
         for e in cat.ENTRIES.values():
             if not e.id.endswith(".identity"):
-                yield {"mode": "mut", "base": {"gen": SMALL_SPEC}, "entry": e.id, "site": 1}
+                for k in (0, 1):
+                    yield {"mode": "mut", "base": {"gen": SMALL_SPEC}, "entry": e.id, "site": k}
         return
     cap_lib, cap_gen = 10, 3
     bases = [({"lib": n}, cap_lib) for n in ALL_LIB_FRAMEWORKS if n != "malaria"] + [({"gen": SMALL_SPEC}, cap_lib)] + [({"gen": s}, cap_gen) for s in _fixed_specs(20)]
